@@ -9,6 +9,7 @@ import (
 )
 
 func init() {
+	register("C15.e", ruleC15e)
 	register("C15.b", ruleC15b)
 	register("C15.d", ruleC15d)
 }
@@ -73,6 +74,45 @@ func ruleC15b(c *Ctx) []*report.Result {
 		}
 	}
 	return []*report.Result{rb, rc}
+}
+
+// ruleC15e: outside the dispatcher, a capture is final. Whether a %w captures
+// is decided by the dispatcher's own test (the operand is an error, wrapping
+// is armed, nothing captured before) — fmt's code, including its behaviour on
+// composite operands, where a second error element rejects and clears what
+// the first one captured. No OTHER code clears a slot that holds an operand
+// captured in the directive being printed: the hand-written wrapper around the
+// dispatcher must not re-decide from the operand's VALUE (a typed nil
+// pointer, a particular error type, ...). Ghost #cap on the printer (run
+// A-wrap): set by a non-nil store to the slot, reset when a verb-taking
+// function is entered or left; a nil store over a non-nil slot with #cap set,
+// in a function that is not itself a capturing function, is the violation.
+func ruleC15e(c *Ctx) []*report.Result {
+	a := c.AWrap()
+	r := report.NewResult("C15.e", "outside the dispatcher a capture is final: within one directive, no function other than the one that captures clears the capture slot while it holds the operand captured in that directive (ghost #cap, run A-wrap, every state of the pair and every route of the operand) — what HelperForErrorf returns as the wrapped error is what fmt's dispatcher captured, for every value of the operand, typed nil pointers included", 2)
+	capturers := map[*ssa.Function]bool{}
+	captures := 0
+	for _, e := range eventsOf(a.It, "store:wrappedErr") {
+		if e.Detail["new"] != "nil" {
+			captures++
+			capturers[e.Fn] = true
+			r.Ok("capture at " + c.P.Pos(e.Instr.Pos()) + " [" + e.Detail["cfg"] + "]")
+		}
+	}
+	for _, e := range eventsOf(a.It, "uncapture") {
+		if capturers[e.Fn] {
+			r.Ok("the dispatcher's own rejection at " + c.P.Pos(e.Instr.Pos()) + " [" + e.Detail["cfg"] + "]")
+			continue
+		}
+		r.Fail(shortFn(e.Fn.String())+" / capture undone", c.P.Pos(e.Instr.Pos()), "the capture slot is cleared, outside the dispatcher, although it holds the operand captured in this very directive: the text is that of a valid %w but the error is dropped (HelperForErrorf returns nil) ["+e.Detail["cfg"]+"]", e.Chain, e.Detail["cfg"])
+	}
+	if captures == 0 {
+		r.Undecide("no store of an operand into the capture slot was seen")
+	}
+	for _, u := range a.It.Undecided {
+		r.Undecide(u)
+	}
+	return []*report.Result{r}
 }
 
 // ruleC15d: HelperForErrorf enables capture before formatting and reads
